@@ -173,6 +173,7 @@ func run(r *core.Run) {
 	runPatterns(r)
 	runGeneralise(r)
 	runDrops(r)
+	runCastVariants(r)
 	runJoinChains(r)
 	runChains(r)
 	runTables(r)
@@ -214,6 +215,27 @@ func runCorpus(r *core.Run) {
 	r.Begin("empty-tuple-pattern", true, "corpus")
 	out = r.Do("C05.match " + patternToken("insert into t1 values ()") + " " + stmtToken("insert into t1 values (1)"))
 	r.Check(out == "false", "matcher-panic", "pattern `insert into t1 values ()` against `insert into t1 values (1)` => "+out)
+
+	// clauses no comparator looked at on the pinned tree (RETURNING, UNION vs UNION ALL; UPDATE … FROM needs the PostgreSQL
+	// dialect): a pattern must not match the statement that carries the extra clause (allow-rule bypass, repaired)
+	for _, w := range [][2]string{
+		{"insert into t1 (a) values (1)", "insert into t1 (a) values (1) returning a"},
+		{"insert into t1 (a) values (%%VALUE%%)", "insert into t1 (a) values (1) returning (select password from users limit 1)"},
+		{"delete from t1 where a = 1", "delete from t1 where a = 1 returning *"},
+		{"delete from t1 where a = %%VALUE%%", "delete from t1 where a = 1 returning id, name"},
+		{"select a from t1 union select b from t2", "select a from t1 union all select b from t2"},
+	} {
+		r.Begin("ignored-clause:"+w[1], true, "corpus", "corpus:ignored-clause")
+		out := r.Do("C05.match " + patternToken(w[0]) + " " + stmtToken(w[1]))
+		r.Check(out == "false", "pattern-ignores-clause", "pattern `"+w[0]+"` matches `"+w[1]+"` => "+out)
+	}
+	// table identifiers are compared after CompliantName(): a pattern for table a_b matches a statement on table `a-b`
+	for _, w := range [][2]string{{"select a from a_b", "select a from `a-b`"}, {"select a from a_b where c = %%VALUE%%", "select a from `a b` where c = 1"}} {
+		r.Begin("compliant-name:"+w[1], true, "corpus", "corpus:compliant-name")
+		if out := r.Do("C05.match " + patternToken(w[0]) + " " + stmtToken(w[1])); out != "false" {
+			r.Fail("pattern-table-compliant-name", "pattern `"+w[0]+"` matches the statement on another table `"+w[1]+"` => "+out)
+		}
+	}
 
 	// a denied statement must not leave a pending entry (PostgreSQL simple query)
 	r.Begin("session-witness", true, "corpus")
